@@ -171,6 +171,15 @@ impl Searcher {
         // Mark that we've seen this state - this will help us avoid draws by repetition in winning states
         state_history.increment(game_state_hash);
 
+        // Checkmate or stalemate: there is no move to report, so end the search normally
+        if MoveGenerator::compute_legal_moves(&game_state).is_empty() {
+            return SearchArtifact {
+                hasher,
+                transpositions,
+                state_history,
+            };
+        }
+
         for depth in 0..max_depth {
             #[cfg(weechess_verif)]
             weechess_simrt::probe::iteration(depth);
